@@ -21,11 +21,11 @@ def oracle_moments(rng, d):
     con = d['con']
     m, n = d['m'], d['n']
     from sageopt.coniclifts.base import Expression
-    with warnings.catch_warnings():
+    with warnings.catch_warnings(), sagecorr.adversarial_globals(d['settings']):
         warnings.simplefilter('ignore')
         cd = con.conic_form()
     for trial in range(5):
-        x, w = sagecorr.sample_domain_point(rng, n, d['kind'])
+        x, w = sagecorr.sample_domain_point(rng, n, d['kind'], d['X'])
         if x is None:
             return None
         t = rng.choice([0.0, 1.0, 0.5, 2.0])
